@@ -650,8 +650,11 @@ class Subspace(IdealPoint):
         """
 
         if model == Model.POINCARE:
+            # the point of the subspace closest to the origin is the
+            # circumcenter of its ideal points (which all lie on the
+            # unit sphere), not their average
             klein_basis = self.ideal_basis_coords(model=Model.KLEIN)
-            klein_midpoint = klein_basis.sum(axis=-2) / klein_basis.shape[-2]
+            klein_midpoint = utils.circumcenter(klein_basis)
             poincare_midpoint = kleinian_to_poincare(klein_midpoint)
             poincare_extreme = utils.sphere_inversion(poincare_midpoint)
 
@@ -660,8 +663,7 @@ class Subspace(IdealPoint):
 
         elif model == Model.HALFSPACE:
             halfspace_basis = self.ideal_basis_coords(model=Model.HALFSPACE)
-            halfspace_midpoint = (halfspace_basis.sum(axis=-2) /
-                                  halfspace_basis.shape[-2])
+            halfspace_midpoint = utils.circumcenter(halfspace_basis)
 
             #just use the first element of the basis
             center = halfspace_midpoint
